@@ -5,6 +5,7 @@ import (
 	"fmt"
 	"regexp"
 	"strconv"
+	"strings"
 	"testing"
 
 	"pgregory.net/rapid"
@@ -30,6 +31,8 @@ type E2ECase struct {
 	// Twin: a second client asks for another slice of the same (not yet stored) resource at the same moment;
 	// Range requests are not coalesced, so two fetches of one resource overlap (the origin takes 40 ms per body)
 	Twin bool `json:"twin,omitempty"`
+	// NoLastMod: the origin sends an ETag but no Last-Modified: there is no stored date an If-Range date could match
+	NoLastMod bool `json:"no_last_modified,omitempty"`
 }
 
 const (
@@ -57,6 +60,9 @@ var subE2E = ev.Register("range-e2e",
 		site := origin.NewSite()
 		v1 := origin.Version{Ver: 1, Len: c.Size, ETag: etagV1, LastMod: lastModV1, HonorRange: c.HonorRange, Chunked: c.Chunked,
 			Headers: []origin.HV{{K: "Cache-Control", V: "max-age=3600"}}}
+		if c.NoLastMod {
+			v1.LastMod = ""
+		}
 		twin := c.Twin && !c.Prime && c.Size >= 2 && !c.Chunked
 		if twin {
 			v1.SlowMs = 40
@@ -132,6 +138,9 @@ var subE2E = ev.Register("range-e2e",
 		o.Classf("status:%d", resp.Status)
 		mismatch := c.IfRange == "other-etag" || c.IfRange == "weak-etag" || c.IfRange == "earlier-date" || c.IfRange == "second-earlier" || c.IfRange == "garbage"
 		either := c.IfRange == "later-date"
+		if c.NoLastMod && strings.HasSuffix(c.IfRange, "-date") || c.NoLastMod && c.IfRange == "second-earlier" {
+			mismatch, either = true, false // whatever the proxy keeps as a date of its own, the origin never sent one
+		}
 		switch resp.Status {
 		case 206:
 			m := reCR.FindStringSubmatch(resp.Header.Get("Content-Range"))
@@ -205,6 +214,7 @@ func drawE2E(t *rapid.T) E2ECase {
 		Prime:        rapid.IntRange(0, 3).Draw(t, "prime") != 0,
 		RetryInvalid: rapid.Bool().Draw(t, "retry_invalid"),
 		Retry416:     rapid.Bool().Draw(t, "retry_416"),
+		NoLastMod:    rapid.IntRange(0, 4).Draw(t, "no-last-mod") == 0,
 		IfRange:      rapid.SampledFrom([]string{"", "", "", "match-etag", "other-etag", "weak-etag", "match-date", "earlier-date", "second-earlier", "later-date", "garbage"}).Draw(t, "ifrange"),
 		Chunked:      rapid.IntRange(0, 4).Draw(t, "chunked") == 0,
 	}
